@@ -16,7 +16,7 @@ std::vector<W> base_weights() {
             {"P_REQUEST", 3}, {"P_CREATE_PRIVATE", 1}, {"P_WRITE", 6}, {"P_FILL", 1}, {"P_DROP", 1}, {"P_COPY", 1},
             {"BAD_FACE", 0}, {"BAD_CELL", 0}, {"FORK_COPY", 0}, {"FORK_ASSIGN", 0}, {"FORK_CROSS", 0}, {"P_POS_PERSIST", 0}, {"FORK_SELF", 0}, {"DESTROY", 0}, {"USE", 0},
             {"P_CREATE_SHARED", 0}, {"P_CREATE_PERSISTENT", 0}, {"P_GET", 0}, {"P_EXISTS", 0}, {"P_SET_SHARED", 0}, {"P_SET_PERSISTENT", 0},
-            {"P_SET_NAME", 0}, {"P_MOVE", 0}, {"P_CLEAR_KIND", 0}, {"P_CLEAR_ALL", 0}, {"COLLAPSE", 0}, {"RESTART", 0}, {"ROUNDTRIP", 0}, {"FAULT_LOAD", 0}, {"SWEEP", 0}, {"SET_POS", 0}, {"BIG", 0}, {"OPEN_CELL", 0}, {"OBSERVE", 1}};
+            {"P_SET_NAME", 0}, {"P_MOVE", 0}, {"P_CLEAR_KIND", 0}, {"P_CLEAR_ALL", 0}, {"COLLAPSE", 0}, {"RESTART", 0}, {"ROUNDTRIP", 0}, {"FAULT_LOAD", 0}, {"SWEEP", 0}, {"SET_POS", 0}, {"BIG", 0}, {"BIG_VALENCE", 0}, {"OPEN_CELL", 0}, {"OBSERVE", 1}};
 }
 void setw(std::vector<W> &w, const char *k, int v) { for (auto &x : w) if (!strcmp(x.kind, k)) x.w = v; }
 void mulw(std::vector<W> &w, const char *prefix, int num, int den = 1) { for (auto &x : w) if (!strncmp(x.kind, prefix, strlen(prefix))) x.w = x.w * num / den; }
@@ -51,7 +51,7 @@ struct HistWorld : World {
         if (prop == "C15") { setw(w, "COLLAPSE", 8); mulw(w, "DEL_", 2); setw(w, "BAD_CELL", 2); setw(w, "BAD_FACE", 2); }
         if (prop == "C16") { setw(w, "ADD_HEX", 16); mulw(w, "DEL_", 2); setw(w, "BAD_CELL", 2); setw(w, "BAD_FACE", 2); }
         if (prop == "C17") { mulw(w, "SWAP_", 6); mulw(w, "DEL_", 2); setw(w, "BU", 3); }
-        if (prop == "C06") { setw(w, "ROUNDTRIP", 14); setw(w, "RESTART", 2); setw(w, "P_CREATE_PERSISTENT", 5); setw(w, "SET_POS", 3); setw(w, "BIG", 1); setw(w, "OPEN_CELL", 2); setw(w, "P_POS_PERSIST", 1); setw(w, "GC", 6); mulw(w, "SWAP_", 1, 2); setw(w, "BU", 0); }
+        if (prop == "C06") { setw(w, "ROUNDTRIP", 14); setw(w, "RESTART", 2); setw(w, "P_CREATE_PERSISTENT", 5); setw(w, "SET_POS", 3); setw(w, "BIG", 1); setw(w, "BIG_VALENCE", 1); setw(w, "OPEN_CELL", 2); setw(w, "P_POS_PERSIST", 1); setw(w, "GC", 6); mulw(w, "SWAP_", 1, 2); setw(w, "BU", 0); }
         if (prop == "C07") { setw(w, "FAULT_LOAD", 30); setw(w, "P_CREATE_PERSISTENT", 4); setw(w, "GC", 4); setw(w, "BU", 0); mulw(w, "SWAP_", 0); setw(w, "SET_E", 0); setw(w, "SET_F", 0); setw(w, "SET_C", 0); }
         if (prop == "C18") { setw(w, "SWEEP", 24); setw(w, "P_CREATE_PERSISTENT", 4); setw(w, "GC", 4); setw(w, "BU", 0); mulw(w, "SWAP_", 0); setw(w, "SET_E", 0); setw(w, "SET_F", 0); setw(w, "SET_C", 0); }
         if (prop == "C01") setw(w, "RESTART", 1);
